@@ -759,6 +759,11 @@ class Evaluator:
                          'sort', 'reverse'):
                     w = W.fork()
                     s = W.seqs[lid]
+                    if m == 'select_nth_unstable_by':
+                        for W1, kk in self.ev_int(e['ch'][1], W):
+                            self.accesses.append(('select_nth', e, W1, [kk, dict(s.len)],
+                                                  src(recv), None))
+                            break
                     t = Seq(s.len, [([], ('opaque', 'permuted(%s)' % self._seq_key(s)))],
                             unknown=s.unknown)
                     w.seqs[lid] = t
@@ -1014,6 +1019,7 @@ class Evaluator:
         if k == 'If':
             self.exec_expr(e, W)
             return
+        self.scan_accesses(e, W)
         for W1, q in self.ev_value(e, W):
             self.returns.append((W1, q, e))
 
